@@ -147,22 +147,44 @@ def Statement : Prop :=
     (main : Option (Rule × Bytes × Option Nat)) (copy : Option (Rule × Bytes)),
     Intact m b (routeRequest cfg q m chain main copy { remaining := b }).1
 
-/-- proved part: rules without a `retry_rule` (the class of finding C03-a excluded): proxy
-    target, copy target and every repeat attempt after a connection failure -/
-theorem every_contact_intact_partial (cfg : ExecCfg) (q : Query) (m b : Bytes)
-    (main : Option (Rule × Bytes × Option Nat)) (copy : Option (Rule × Bytes)) :
-    Intact m b (routeRequest cfg q m [] main copy { remaining := b }).1 := by
-  have h0 : Intact m b ({ remaining := b } : ExecState) := by intro c hc; simp at hc
-  have := routeOnce_intact cfg m b false main copy { remaining := b } rfl h0
-  unfold routeRequest
-  split
-  · rename_i heq; rw [heq] at this; exact this
-  · rename_i heq; rw [heq] at this; split <;> exact this
-  · rename_i heq; rw [heq] at this; exact this
+/-- the invariant through the whole retry chain: each pass starts with the complete body
+    (re-armed from the buffered bytes before a fallback) -/
+theorem routeRequest_intact (cfg : ExecCfg) (q : Query) (m b : Bytes) (chain : List Rule)
+    (main : Option (Rule × Bytes × Option Nat)) (copy : Option (Rule × Bytes)) (st : ExecState)
+    (hr : st.remaining = b) (h : Intact m b st) :
+    Intact m b (routeRequest cfg q m chain main copy st).1 := by
+  induction chain generalizing main copy st with
+  | nil =>
+    have := routeOnce_intact cfg m b false main copy st hr h
+    unfold routeRequest
+    split
+    · rename_i heq; rw [heq] at this; exact this
+    · rename_i heq; rw [heq] at this; split <;> exact this
+    · rename_i heq; rw [heq] at this; exact this
+  | cons rr rest ih =>
+    have := routeOnce_intact cfg m b true main copy st hr h
+    unfold routeRequest
+    split
+    · rename_i heq; rw [heq] at this; exact this
+    · rename_i st' e idx heq
+      rw [heq] at this
+      split
+      · exact this
+      · split
+        · exact ih _ _ _ (by simp [hr]) (fun c hc hf => this c hc hf)
+        · exact this
+    · rename_i st' heq
+      rw [heq] at this
+      exact ih _ _ _ (by simp [hr]) (fun c hc hf => this c hc hf)
 
-/-! The excluded class is real: PUT with a body, main answers 404, retry_rule present ⇒ the
-    fallback receives an empty body (finding C03-a; replayed on the implementation by stream
-    kf.C03-a). -/
+/-- **C03 as stated**: proxy target, copy target, every repeat attempt after a connection
+    failure and every retry_rule fallback, at any depth of the retry chain. -/
+theorem holds_model : Statement := by
+  intro cfg q m b chain main copy
+  exact routeRequest_intact cfg q m b chain main copy { remaining := b } rfl (by intro c hc; simp at hc)
+
+/-! Regression instance (the former finding C03-a, repaired by a `fix:` commit): PUT with a body,
+    main answers 404, retry_rule present ⇒ the fallback receives the COMPLETE body. -/
 def wCfg : ExecCfg := {
   script := [ { host := b!"d0.test", status := 404, headers := [], body := b!"nf", chunked := false, connectErrors := 0, readErrAt := none },
               { host := b!"r0.test", status := 200, headers := [], body := b!"fallback", chunked := false, connectErrors := 0, readErrAt := none } ],
@@ -172,17 +194,16 @@ def wMain : Rule := { path := b!"/m/*", wci := some 3, dest := b!"http://d0.test
 def wRetry : Rule := { path := b!"/m/*", wci := some 3, dest := b!"http://r0.test/fb/$1" }
 def wQ : Query := ⟨b!"http", b!"h1.test", b!"/m/a", b!"PUT"⟩
 
-theorem fails_witness :
+example :
     (routeRequest wCfg wQ b!"PUT" [wRetry] (some (wMain, b!"http://d0.test/a", some 0)) none { remaining := b!"payload" }).1.contacts
-      = [⟨b!"d0.test", b!"PUT", false, b!"payload"⟩, ⟨b!"r0.test", b!"PUT", false, []⟩] := by decide
+      = [⟨b!"d0.test", b!"PUT", false, b!"payload"⟩, ⟨b!"r0.test", b!"PUT", false, b!"payload"⟩] := by decide
 
-theorem Statement_false : ¬ Statement := by
-  intro h
-  have := h wCfg wQ b!"PUT" b!"payload" [wRetry] (some (wMain, b!"http://d0.test/a", some 0)) none
-  have hc := this ⟨b!"r0.test", b!"PUT", false, []⟩ (by rw [fails_witness]; simp) rfl
-  exact absurd hc.2 (by decide)
+/-- POST (not retryable) through a retry_rule: buffered too, so the fallback gets the body -/
+example :
+    (routeRequest wCfg { wQ with method := b!"POST" } b!"POST" [wRetry] (some (wMain, b!"http://d0.test/a", some 0)) none { remaining := b!"payload" }).1.contacts
+      = [⟨b!"d0.test", b!"POST", false, b!"payload"⟩, ⟨b!"r0.test", b!"POST", false, b!"payload"⟩] := by decide
 
-/-- non-vacuity of the partial theorem: a copy target, a failing-then-answering main target -/
+/-- non-vacuity: a copy target, a failing-then-answering main target -/
 example : (routeRequest { wCfg with script := [ { host := b!"d0.test", status := 200, headers := [], body := b!"ok", chunked := false, connectErrors := 1, readErrAt := none },
                                                  { host := b!"c0.test", status := 500, headers := [], body := [], chunked := false, connectErrors := 0, readErrAt := none } ],
                                      retries := 1 }
